@@ -34,12 +34,14 @@ def check_sequence(case):
     nq = 0
     jumped = False
     lastT = None
+    warm = False           # a driving-force query with the cache retained has been made since the last clear: later ones are warm-started
     try:
         W.clearCache()
         for k, op in enumerate(case["ops"]):
             kind = op["kind"]
             if kind == "clear":
                 W.clearCache()
+                warm = False
                 continue
             x = np.array(op["x"], dtype=float)          # (n, nsolutes)
             T = np.array(op["T"], dtype=float)          # (n,)
@@ -78,12 +80,14 @@ def check_sequence(case):
                         continue
                     rt, at = (5e-2, 1.5) if ordered else (1e-6, 1.05)
                     if not _same(dg[i], rdg, rt, at):
-                        out.fail("driving_force_history_dependent", "%s op %d (%s, removeCache=%s, element %d of %d): x=%r T=%r: %r from the object with history, %r from a cache-free object" % (case["system"], k, ph, rc, i, n, x[i].tolist(), T[i], float(dg[i]), float(rdg)), removeCache=bool(rc))
+                        out.fail("driving_force_history_dependent", "%s op %d (%s, removeCache=%s, element %d of %d): x=%r T=%r: %r from the object with history, %r from a cache-free object" % (case["system"], k, ph, rc, i, n, x[i].tolist(), T[i], float(dg[i]), float(rdg)), removeCache=bool(rc), warm=warm)
                     if not _same(dg[i], dg2[i], rt, at):
-                        out.fail("repeat_differs", "%s op %d: repeating the driving-force query gives %r then %r" % (case["system"], k, float(dg[i]), float(dg2[i])), removeCache=bool(rc))
+                        out.fail("repeat_differs", "%s op %d: repeating the driving-force query gives %r then %r" % (case["system"], k, float(dg[i]), float(dg2[i])), removeCache=bool(rc), warm=True)
                     xpi = np.atleast_2d(np.asarray(xp, dtype=float).reshape(n, -1))[i]
                     if not _same(xpi, np.atleast_1d(rxp), 0, 1e-2 if ordered else 1e-5):
-                        out.fail("nucleus_composition_history_dependent", "%s op %d (%s): precipitate composition %r vs cache-free %r" % (case["system"], k, ph, xpi.tolist(), np.atleast_1d(rxp).tolist()), removeCache=bool(rc))
+                        out.fail("nucleus_composition_history_dependent", "%s op %d (%s): precipitate composition %r vs cache-free %r" % (case["system"], k, ph, xpi.tolist(), np.atleast_1d(rxp).tolist()), removeCache=bool(rc), warm=warm)
+                if not rc:
+                    warm = True
             elif kind == "ic" and cfg["binary"]:
                 g = np.array(op["g"], dtype=float)
                 g0 = g.copy()
@@ -183,7 +187,8 @@ def _seq(draw):
 def pred_gamma_prime_warm(case, v):
     """Order/disorder precipitate (Ni-Cr-Al gamma prime), tangent driving force with the cached composition sets retained:
     after a composition/temperature jump the warm-started solver can land on a different branch than a cold start."""
-    return case.get("system") == "nicral" and bool(case.get("gp_retained")) and v.get("data", {}).get("removeCache") is False
+    d = v.get("data", {})
+    return case.get("system") == "nicral" and bool(case.get("gp_retained")) and d.get("removeCache") is False and bool(d.get("warm"))
 
 
 PREDICATES_EXTRA = {"gamma_prime_warm_start": pred_gamma_prime_warm}
